@@ -17,10 +17,9 @@ def tests(cwd):
     return out
 def demo(cwd):
     env = dict(os.environ, PYTHONPATH=cwd)
-    shutil.copy(os.path.join(seed, "demo.py"), os.path.join(cwd, "_demo_seed.py"))
     os.makedirs(os.path.join(cwd, "_seed"), exist_ok=True)
-    shutil.copy(os.path.join(seed, "demo.py"), os.path.join(cwd, "_seed", "demo.py"))
-    rc, out = sh("/venv/bin/python _seed/demo.py", cwd, env)
+    shutil.copy(os.path.join(seed, "demo.py"), os.path.join(cwd, "_seed", "seed_demo_script.py"))      # (a demo may generate a package called `demo`)
+    rc, out = sh("/venv/bin/python _seed/seed_demo_script.py", cwd, env)
     return rc, out[-1500:]
 try:
     rc, out = sh(f"git -C /repo worktree add -q --detach {wt} HEAD"); assert rc == 0, out
